@@ -13,9 +13,9 @@ use vref::sec::Licence;
 /// one coordinate per dimension; 0 is the default
 pub type Assign = Vec<usize>;
 
-pub const DIM_NAMES: [&str; 25] = [
+pub const DIM_NAMES: [&str; 28] = [
     "use_nla", "restricted_admin", "blank_creds", "auto_logon", "use_hash", "client_name", "screen", "layout", "credentials", "select_ssl_although_nla", "user_id", "share_id", "version", "sc_core_optional", "block_order", "unknown_block", "channels", "licence",
-    "capabilities", "source_descriptor", "reactivations", "reuse_share_id_on_reactivation", "licence_security_flags", "set_error_info_during_finalization", "builder_call_order",
+    "capabilities", "source_descriptor", "reactivations", "reuse_share_id_on_reactivation", "licence_security_flags", "set_error_info_during_finalization", "builder_call_order", "data_priority_of_server_indications", "ber_length_width_of_connect_response", "ntlm_challenge_maxlen_fields",
 ];
 
 pub fn names() -> Vec<String> {
@@ -23,7 +23,7 @@ pub fn names() -> Vec<String> {
 }
 
 pub fn dim_sizes() -> Vec<usize> {
-    vec![2, 2, 2, 2, 2, names().len(), 4, 3, 3, 2, 6, 4, 5, 3, 6, 2, 3, 5, 4, 3, 3, 2, 2, 5, 4]
+    vec![2, 2, 2, 2, 2, names().len(), 4, 3, 3, 2, 6, 4, 5, 3, 6, 2, 3, 5, 4, 3, 3, 2, 2, 5, 4, 4, 4, 3]
 }
 
 pub fn build(a: &Assign) -> (ConnCfg, ServerParams) {
@@ -65,6 +65,9 @@ pub fn build(a: &Assign) -> (ConnCfg, ServerParams) {
     p.licence_sec_flags = [0x0080u16, 0x0280][a[22]];
     p.errinfo_before = a[23];
     c.builder_order = a[24] as u8;
+    p.sdi_priority = [0x70u8, 0x30, 0xB0, 0xF0][a[25]];
+    p.ber_wide = a[26];
+    p.ntlm.maxlen_override = [None, Some(0u16), Some(0xFFFF)][a[27]];
     (c, p)
 }
 
@@ -127,7 +130,7 @@ impl Prop for C03 {
         d
     }
     fn rule(&self) -> String {
-        format!("cases = (connector configuration, conforming-server parameters) over 25 dimensions ({} alternatives in total): NLA, restricted admin, blank credentials, auto logon, password|hash, 9 client names, 4 screen sizes, 3 layouts, 3 credential sets, SSL although NLA offered, 6 user ids (1001..65535), 4 share ids, 5 versions, optional SC_CORE fields, 6 block orders, unknown block, SC_NET padding, 5 licence variants, 4 capability lists (incl. the Windows capture, unknown and empty sets), 3 source-descriptor lengths, 0..2 reactivations, fresh or reused share id on reactivation, licence security-header flags 0x0080 / 0x0280, a Set Error Info (ERRINFO_NONE) PDU before each of the four server finalization PDUs, 4 orders of the Connector builder calls (flags then credentials, credentials then flags, re-configuration of a connector set up for another account with every flag inverted, flags-credentials-flags). Enumerated: the default, every single alternative, every pair, every triple (every quadruple in thorough). Each case is a full real Connector::connect over real TLS + activation + 4 input events + shutdown; oracle: success, mandated message order, no message written while the reply it depends on is unread, identifiers echoed. Non-trivial: at least one non-default coordinate.", dim_sizes().iter().map(|s| s - 1).sum::<usize>())
+        format!("cases = (connector configuration, conforming-server parameters) over 28 dimensions ({} alternatives in total): NLA, restricted admin, blank credentials, auto logon, password|hash, 9 client names, 4 screen sizes, 3 layouts, 3 credential sets, SSL although NLA offered, 6 user ids (1001..65535), 4 share ids, 5 versions, optional SC_CORE fields, 6 block orders, unknown block, SC_NET padding, 5 licence variants, 4 capability lists (incl. the Windows capture, unknown and empty sets), 3 source-descriptor lengths, 0..2 reactivations, fresh or reused share id on reactivation, licence security-header flags 0x0080 / 0x0280, a Set Error Info (ERRINFO_NONE) PDU before each of the four server finalization PDUs, send-data indications at top / high / medium / low priority, BER lengths of the MCS connect response in minimal and 1..3-byte long forms, MaxLen fields of the NTLM CHALLENGE equal to Len / 0 / 0xFFFF, 4 orders of the Connector builder calls (flags then credentials, credentials then flags, re-configuration of a connector set up for another account with every flag inverted, flags-credentials-flags). Enumerated: the default, every single alternative, every pair, every triple (every quadruple in thorough). Each case is a full real Connector::connect over real TLS + activation + 4 input events + shutdown; oracle: success, mandated message order, no message written while the reply it depends on is unread, identifiers echoed. Non-trivial: at least one non-default coordinate.", dim_sizes().iter().map(|s| s - 1).sum::<usize>())
     }
     fn assumptions(&self) -> Vec<String> {
         vec![
@@ -209,6 +212,22 @@ impl Prop for C04 {
                 }
             }
         }
+        // client names in which a supplementary code point (surrogate pair) straddles or ends exactly at the 15-unit cut
+        for cp in ['\u{10000}', '\u{10001}', '\u{1F600}', '\u{FFFFF}', '\u{100000}', '\u{10FBFF}', '\u{10FC00}', '\u{10FFFF}'] {
+            for lead in [12usize, 13, 14, 15] {
+                cs.push(C04Case::Str(0, format!("{}{}tail", "x".repeat(lead), cp), false));
+            }
+            cs.push(C04Case::Str(0, cp.to_string().repeat(8), false));
+            cs.push(C04Case::Str(0, format!("x{}", cp.to_string().repeat(8)), true));
+        }
+        // credentials so long that the client-info PDU approaches and exceeds what a TPKT frame (and a 16-bit cb field)
+        // can carry: whatever is sent must still be well formed, or nothing is sent
+        for units in [8000usize, 16000, 32000, 32600, 32700, 32740, 32760, 32767, 32768, 33000, 40000, 70000] {
+            for field in [2usize, 3] {
+                cs.push(C04Case::Len(0, field, units, false));
+            }
+            cs.push(C04Case::Len(1, 3, units, false));
+        }
         let max_units = if tier == Tier::Quick { 140 } else { 300 };
         for ver in [0usize, 1] {
             for field in 1..4 {
@@ -237,7 +256,7 @@ impl Prop for C04 {
         }
     }
     fn rule(&self) -> String {
-        "cases = full conversations (as C03) whose every client message is parsed by the strict reference parsers: TPKT/X.224, BER connect-initial, PER conference-create-request (length = 14 + blocks), CS_CORE/CS_SECURITY/CS_NET block lengths, clientName = 32 bytes holding <=15 UTF-16 units + NUL, info packet cb* fields / terminators / extended info, share control totalLength, share data lengths, confirm-active counts and per-type capability sizes, input PDU numEvents, NTLM NEGOTIATE/AUTHENTICATE descriptor triples, strict DER TSRequest/TSCredentials. Configurations: default, every single alternative and every pair of the 25 C03 dimensions (every triple in thorough), and every string of the Unicode alphabet (class^len for class in {a, é, 日, 😀} x len in {0,1,7,8,15,16,17,31,32,64}, every mixed string of <=3 code points, the boundary code points of every UTF-8/UTF-16 encoding length) as client name, domain, user and password, with NLA on and off; plus the length sweep: domain, user and password of every length 0..140 UTF-16 units (0..300 thorough) against an RDP5 and an RDP4 server (info packet with and without extended info), NLA on and off, so that every emitted length field crosses its 0x7f/0x80 and 0xff/0x100 encoding boundaries. Non-trivial: every case but the default.".into()
+        "cases = full conversations (as C03) whose every client message is parsed by the strict reference parsers: TPKT/X.224, BER connect-initial, PER conference-create-request (length = 14 + blocks), CS_CORE/CS_SECURITY/CS_NET block lengths, clientName = 32 bytes holding <=15 UTF-16 units + NUL, info packet cb* fields / terminators / extended info, share control totalLength, share data lengths, confirm-active counts and per-type capability sizes, input PDU numEvents, NTLM NEGOTIATE/AUTHENTICATE descriptor triples, strict DER TSRequest/TSCredentials. Configurations: default, every single alternative and every pair of the 28 C03 dimensions (every triple in thorough), and every string of the Unicode alphabet (class^len for class in {a, é, 日, 😀} x len in {0,1,7,8,15,16,17,31,32,64}, every mixed string of <=3 code points, the boundary code points of every UTF-8/UTF-16 encoding length) as client name, domain, user and password, with NLA on and off; plus client names in which each boundary supplementary code point straddles / ends at the 15-unit cut; user names and passwords of 8000..70000 UTF-16 units (the client-info PDU then exceeds a TPKT frame: well formed or not sent at all); plus the length sweep: domain, user and password of every length 0..140 UTF-16 units (0..300 thorough) against an RDP5 and an RDP4 server (info packet with and without extended info), NLA on and off, so that every emitted length field crosses its 0x7f/0x80 and 0xff/0x100 encoding boundaries. Non-trivial: every case but the default.".into()
     }
     fn assumptions(&self) -> Vec<String> {
         vec![
